@@ -15,11 +15,32 @@ STD_PRIMS = [  # (regex, primitive, mutating?)
  (r'\bread_to_end\b|\bread_to_string\b|\.read\(', 'Read', False), (r'\bfs::read_dir\b', 'ReadDir', False),
  (r'\bwrite_all\b|\bfs::write\b', 'Write', True), (r'\bfs::remove_file\b', 'RemoveFile', True), (r'\bfs::remove_dir(_all)?\b', 'RemoveDir', True),
  (r'\bfs::create_dir(_all)?\b', 'CreateDir', True), (r'\bfs::rename\b', 'Rename', True), (r'\bfs::copy\b', 'Copy', True),
+ (r'\bhard_link\b', 'HardLink', True), (r'\bsoft_link\b', 'Symlink', True), (r'\bFile::create_new\b|\bFile::options\b', 'OpenWrite', True),
+ (r'\.set_len\(|\.set_modified\(|\.set_times\(', 'Chmod', True), (r'\bDirBuilder\b', 'CreateDir', True),
  (r'\bsymlink(_file|_dir)?\(', 'Symlink', True), (r'\bset_permissions\b', 'Chmod', True), (r'\bCommand::new\b', 'Spawn', True),
  (r'\benv::set_var\b|\benv::remove_var\b', 'EnvWrite', True), (r'\benv::set_current_dir\b', 'Chdir', True),
  (r'\benv::current_dir\b', 'CurrentDir', False), (r'\benv::var\b|\benv::args\b', 'EnvRead', False),
  (r'\.is_file\(\)|\.is_dir\(\)|\.is_symlink\(\)|\.exists\(\)', 'Metadata', False), (r'\.seek\(', 'Seek', False), (r'\.modified\(\)', 'Metadata', False),
 ]
+# every name of std::fs that the source imports or spells as fs::name must be known here (fail-closed); a mutating free function that is
+# imported by name is recognised when it is called bare (`use std::fs::{hard_link}; ... hard_link(a, b)`)
+FS_READ = {'File', 'metadata', 'Metadata', 'read_dir', 'ReadDir', 'DirEntry', 'FileType', 'read_to_string', 'read', 'canonicalize', 'symlink_metadata', 'read_link', 'try_exists'}
+FS_MUT = {'copy': 'Copy', 'create_dir': 'CreateDir', 'create_dir_all': 'CreateDir', 'hard_link': 'HardLink', 'soft_link': 'Symlink', 'remove_dir': 'RemoveDir',
+          'remove_dir_all': 'RemoveDir', 'remove_file': 'RemoveFile', 'rename': 'Rename', 'set_permissions': 'Chmod', 'write': 'Write', 'OpenOptions': 'OpenWrite',
+          'DirBuilder': 'CreateDir', 'Permissions': 'Chmod'}
+def fs_imports(src, rel):
+    """names imported from std::fs (and std::os::unix::fs) into this file -> {local name: std name}"""
+    out = {}
+    for m in re.finditer(r'\buse\s+std::(?:os::\w+::)?fs::(\{[^}]*\}|[\w:]+(?:\s+as\s+\w+)?|\*)\s*;', src):
+        g = m.group(1)
+        if g == '*': sys.exit("scan_fs: glob import of std::fs in %s" % rel)
+        for item in (g.strip('{}').split(',') if g.startswith('{') else [g]):
+            item = item.strip()
+            if not item or item == 'self': continue
+            mm = re.fullmatch(r'(\w+)(?:\s+as\s+(\w+))?', item)
+            if not mm: sys.exit("scan_fs: import shape not understood in %s: %s" % (rel, item))
+            out[mm.group(2) or mm.group(1)] = mm.group(1)
+    return out
 FORBIDDEN = [r'\bunsafe\b', r'\bextern\s+"C"', r'\blibc::', r'\binclude!\(']
 # a new dependency could bring file-system effects the scan does not see: the dependency list is pinned
 cargo = open(repo + "/Cargo.toml").read()
@@ -76,6 +97,13 @@ for path in sorted(glob.glob(repo + "/src/**/*.rs", recursive=True)):
     src = re.sub(r'#\[cfg\(test\)\]\s*(pub\s+)?mod\s+\w+;', '', src)
     for pat in FORBIDDEN:
         if re.search(pat, src): sys.exit("scan_fs: forbidden construct %s in %s" % (pat, rel))
+    imported = fs_imports(src, rel)
+    for loc, std in imported.items():
+        if std not in FS_READ and std not in FS_MUT and std not in ('symlink', 'MetadataExt', 'PermissionsExt', 'OpenOptionsExt', 'FileExt'):
+            sys.exit("scan_fs: unknown std::fs name %s imported in %s" % (std, rel))
+    for std in re.findall(r'\bfs::(\w+)', src):
+        if std not in FS_READ and std not in FS_MUT:
+            sys.exit("scan_fs: unknown std::fs name fs::%s in %s" % (std, rel))
     for fname, body, fstart in functions(src):
         startup = any(re.search(p, rel) for p in STARTUP) or (rel, fname) in STARTUP_FNS
         prims = set()
@@ -88,6 +116,8 @@ for path in sorted(glob.glob(repo + "/src/**/*.rs", recursive=True)):
             if nnet: prims.add('NetWrite')
         for rx, prim, _ in STD_PRIMS:
             if re.search(rx, body_scan): prims.add(prim)
+        for loc, std in imported.items():
+            if std in FS_MUT and re.search(r'(?<![\w:.])%s\s*\(' % re.escape(loc), body_scan): prims.add(FS_MUT[std])
         for f in re.findall(r'\bFileExt::(\w+)\s*\(', body):
             if f not in fe_funcs: sys.exit("scan_fs: unknown FileExt::%s in %s" % (f, rel))
             prims |= fe_prims(f)
